@@ -182,6 +182,19 @@ def run(ctx):
                 cfg["to"] = 0          # a non-blocking socket: "no data now" is BlockingIOError(EAGAIN), not socket.timeout
             sessions.append((cfg, ev, ops))
             meta.append((gid, frames, api, ev))
+        # the same bytes over a TLS-like transport with a timeout set: every k-th read first reports an incomplete record
+        # (SSLWantReadError) before the data is there — "however the network cuts it into segments"
+        if len(stream) > 1:
+            for kth in (2, 3):
+                pts = sorted(set(rnd.sample(range(1, len(stream)), min(len(stream) - 1, rnd.randint(1, 4)))))
+                pts = [0] + pts + [len(stream)]
+                ev = []
+                for j, (a, b) in enumerate(zip(pts, pts[1:])):
+                    if j % kth == kth - 1:
+                        ev.append(("wantread",))
+                    ev.append(("chunk", stream[a:b]))
+                sessions.append(({"keys": [b"\xa1\xb2\xc3\xd4"] * 8, "tail": "eof", "to": 1000}, ev, [api] * base_calls))
+                meta.append((gid, frames, api, ev))
     res = rx.run_sessions(ctx, "session:segmentation", sessions)
     base = {}
     for (gid, frames, api, ev), (impl, model, ws, sock, line) in zip(meta, res):
